@@ -8,6 +8,7 @@ import (
 	"os"
 	"sort"
 	"strings"
+	"sync/atomic"
 
 	secp256k1 "gitlab.com/yawning/secp256k1-voi"
 
@@ -16,6 +17,10 @@ import (
 	"verifharness/mon"
 	"verifharness/oracle"
 )
+
+// GCStormPaused suspends the collection loop of the dyn-gcstorm configuration (cmd/verifrun) while a
+// monitor needs a window without collections (the confirm step of the C17 trace monitor).
+var GCStormPaused atomic.Bool
 
 // Prop is a registered property check.
 type Prop struct {
